@@ -1,5 +1,156 @@
-"""Canaries and mutation self-test (filled in later)."""
+"""Checker self-test: canaries (quick) and the mutation matrix (thorough).
+
+Variants are scratch copies of /repo/src with AST-verified text edits applied;
+they live under a temporary directory outside /repo and /verif and are removed
+as soon as the checks have run on them.  Nothing of a variant is executed: the
+checks analyse it exactly as they analyse /repo.
+"""
+
+from __future__ import annotations
+
+import ast
+from concurrent.futures import ThreadPoolExecutor
+import os
+from pathlib import Path
+import shutil
+import subprocess
+import sys
+import tempfile
+
+from .model import AnalysisError
+
+VERIF = Path(__file__).resolve().parent.parent
+REPO = Path("/repo")
+PKG_REL = Path("src") / "aiomysensors"
 
 
-def run_for(prop, tier, chk, seed):
-    return None
+def load_catalogue():
+    from . import mutants
+
+    return mutants.MUTANTS
+
+
+def make_variant(mut: dict, dest: Path, repo: Path = REPO) -> tuple[bool, str]:
+    """Copy repo/src to dest/src and apply the mutant's edits. False if an anchor is missing."""
+    src = repo / "src"
+    shutil.copytree(src, dest / "src", ignore=shutil.ignore_patterns("__pycache__", "*.pyc"))
+    for rel, find, repl in mut["edits"]:
+        p = dest / PKG_REL / rel
+        if not p.exists():
+            return False, f"file {rel} missing"
+        s = p.read_text()
+        if s.count(find) != 1:
+            return False, f"anchor occurs {s.count(find)} times in {rel}: {find[:50]!r}"
+        s = s.replace(find, repl)
+        try:
+            ast.parse(s)
+        except SyntaxError as err:
+            return False, f"edit does not parse: {err}"
+        p.write_text(s)
+    return True, ""
+
+
+def run_check(prop: str, root: Path, tier: str = "quick") -> tuple[int, str]:
+    env = dict(os.environ)
+    env["VERIF_NO_EVIDENCE"] = "1"
+    proc = subprocess.run(
+        [sys.executable, str(VERIF / "vcheck.py"), prop, "--tier", tier, "--root", str(root), "--no-selftest"],
+        capture_output=True,
+        text=True,
+        env=env,
+        timeout=900,
+        check=False,
+    )
+    return proc.returncode, proc.stdout + proc.stderr
+
+
+def rules_reported(out: str) -> set[str]:
+    rules = set()
+    for ln in out.splitlines():
+        ln = ln.strip()
+        if ln.startswith("[") and "]" in ln:
+            rules.add(ln[1 : ln.index("]")])
+    return rules
+
+
+def evaluate(mut: dict, prop: str, code: int, out: str) -> tuple[bool, str]:
+    if mut["kind"] == "preserve":
+        if code == 0:
+            return True, "silent"
+        return False, f"exit {code} on a behaviour-preserving variant: {sorted(rules_reported(out)) or out[-300:]}"
+    if code == 1:
+        want = mut.get("rules", {}).get(prop)
+        got = rules_reported(out)
+        if want and not (set(want) & got):
+            return False, f"exit 1 but by rules {sorted(got)}, expected one of {want}"
+        return True, f"caught by {sorted(got)}"
+    if code == 2:
+        return False, "exit 2 (analysis error) instead of a violation: " + "".join(x for x in out.splitlines() if "ANALYSIS-ERROR" in x)[:300]
+    return False, "not detected (exit 0)"
+
+
+def run_matrix(pairs: list[tuple[dict, str]], jobs: int = 16) -> list[dict]:
+    """pairs: (mutant, property).  Returns result records."""
+    tmp = Path(tempfile.mkdtemp(prefix="vsa-"))
+    results: list[dict] = []
+    try:
+        variants: dict[str, Path | None] = {}
+        notes: dict[str, str] = {}
+        for mut, _p in pairs:
+            if mut["id"] in variants:
+                continue
+            d = tmp / mut["id"]
+            d.mkdir()
+            ok, why = make_variant(mut, d)
+            variants[mut["id"]] = d if ok else None
+            notes[mut["id"]] = why
+        # warm the facts cache once per variant (avoids 19 concurrent mypy runs of the same tree)
+        def warm(mid: str):
+            d = variants[mid]
+            if d is None:
+                return
+            subprocess.run([sys.executable, "-c", "import sys; sys.path.insert(0, %r); from sa.model import Program; Program(%r).facts" % (str(VERIF), str(d))], capture_output=True, timeout=900, check=False)
+
+        with ThreadPoolExecutor(max_workers=jobs) as ex:
+            list(ex.map(warm, list(variants)))
+
+        def one(pair):
+            mut, prop = pair
+            d = variants[mut["id"]]
+            if d is None:
+                return {"mutant": mut["id"], "property": prop, "status": "skipped", "detail": notes[mut["id"]]}
+            code, out = run_check(prop, d)
+            ok, detail = evaluate(mut, prop, code, out)
+            return {"mutant": mut["id"], "property": prop, "status": "ok" if ok else "FAIL", "exit": code, "detail": detail}
+
+        with ThreadPoolExecutor(max_workers=jobs) as ex:
+            results = list(ex.map(one, pairs))
+    finally:
+        shutil.rmtree(tmp, ignore_errors=True)
+    return results
+
+
+def run_for(prop: str, tier: str, chk, seed: int) -> None:
+    cat = load_catalogue()
+    if tier == "quick":
+        mine = [m for m in cat if m.get("canary") and prop in m["props"]]
+    else:
+        mine = [m for m in cat if (m["kind"] == "break" and prop in m["props"]) or m["kind"] == "preserve"]
+    if not mine:
+        chk.notes["selftest"] = {"tier": tier, "variants": 0}
+        return
+    if seed:
+        import random
+
+        random.Random(seed).shuffle(mine)
+    res = run_matrix([(m, prop) for m in mine])
+    fails = [r for r in res if r["status"] == "FAIL"]
+    chk.notes["selftest"] = {
+        "tier": tier,
+        "variants": len(res),
+        "caught_or_silent_as_expected": sum(1 for r in res if r["status"] == "ok"),
+        "skipped_anchor_missing": [r["mutant"] for r in res if r["status"] == "skipped"],
+        "results": [{k: r[k] for k in ("mutant", "status", "detail")} for r in res],
+    }
+    if fails:
+        raise AnalysisError("checker self-test failed: " + "; ".join(f"{r['mutant']}: {r['detail']}" for r in fails[:5]))
